@@ -490,6 +490,67 @@ def r19_7(prog, rep, rid="R19.7"):
         rep.broken_("rule=R19.7 expected 4 signed iterators, analysed %d" % n)
 
 
+def r19_9(prog, rep, rid="R19.9"):
+    """In bitset representation the words of a container are bit masks; bit 31 (63) of the signed `neg` word is a member (-31, -63).
+    A relational comparison of such a word (`bi.neg > 1`) is a signed comparison: with that member present the word is negative and
+    the test says `no members`.  Inside the bitset-mode region of the iterators and membership tests, mask words of signed type may
+    only be tested for (in)equality with 0 or through & / >> (the native/single-value region holds plain numbers and is exempt)."""
+    n = 0
+    for name in ("bi31_next", "bi63_next", "bi31_has_bit_p", "bi63_has_bit_p", "bi31_has_bits_p", "bi63_has_bits_p"):
+        if not prog.has_fn(name):
+            continue
+        f = prog.fn(name)
+        cfg = f.cfg
+        bi = [p_["n"] for p_ in f.params if "bitint" in (p_.get("t") or "") and "iter" not in (p_.get("t") or "")]
+        if not bi:
+            continue
+        bi = bi[0]
+        tag = bi + ".pos"
+        # bitset region: blocks dominated by the tag-clear edge of the `pos & 1` test (all blocks when the function has no such test)
+        region = None
+        for b in cfg.blocks:
+            c = cfg.cond(b)
+            if c is None:
+                continue
+            c_ = strip(c)
+            neg = False
+            while isinstance(c_, dict) and c_.get("k") == "un" and c_["op"] == "!":
+                neg = not neg
+                c_ = strip(c_["e"])
+            if isinstance(c_, dict) and c_.get("k") == "bin" and c_["op"] == "&" and int_value(c_["r"]) == 1 and lv(strip_casts(c_["l"])) == tag:
+                clear = cfg.blocks[b].succs[0 if neg else 1]
+                cand = {x for x in cfg.blocks if clear is not None and (x == clear or cfg.dominates(clear, x))}
+                # the representation test is the outermost one (the same expression also steers the scan loops further in)
+                if region is None or len(cand) > len(region):
+                    region = cand
+        if region is None:
+            region = set(cfg.blocks)
+        n += 1
+        bad = []
+        for b in sorted(region):
+            for e in cfg.blocks[b].elems:
+                x = e["x"]
+                if not isinstance(x, dict):
+                    continue
+                for nn in walk(x):
+                    if nn.get("k") == "bin" and nn["op"] in ("<", ">", "<=", ">="):
+                        for side in ("l", "r"):
+                            core = strip_casts(nn[side])
+                            if core.get("k") == "mem" and lv(core) == bi + ".neg" and not (core.get("t") or "").startswith("u"):
+                                cast_to = nn[side].get("to", {}) if nn[side].get("k") == "cast" else {}
+                                if cast_to.get("s") is False:
+                                    continue    # explicitly compared as unsigned
+                                bad.append((e.get("line"), show(nn)[:60]))
+        key = "%s/mask-words-not-compared-signed" % name
+        if bad:
+            rep.fail(rid, key, f.loc(bad[0][0]), "in bitset mode `%s` compares the signed mask word %s.neg relationally: with the member stored in its top bit "
+                     "(-31 / -63) the word is negative, the test reads `no negatives` and they are skipped" % (bad[0][1], bi))
+        else:
+            rep.ok(rid, key, f.loc(), "no relational comparison of the signed mask word in the bitset region (%d blocks)" % len(region), nontrivial=(n == 1))
+    if n < 2:
+        rep.broken_("rule=%s expected >=2 inline signed-container functions, analysed %d" % (rid, n))
+
+
 def r19_5(prog, rep, rid="R19.5"):
     """Tag-bit discipline of the assign functions.  Bit 0 of the positive word is the representation tag
     (one integer / native list vs bitset).  (a) ass_bi31/ass_bi63: every member bit that goes into the positive word is
